@@ -367,7 +367,7 @@ def run_seed(seed, ctx):
         "events_sha": tape.event_digest(),
         "violations": [],
     }
-    if seed % 997 == 0 or (nontrivial and seed % 101 == 0):
+    if seed % 997 == 0 or (nontrivial and seed % 101 == 0) or ctx.get("want_sample"):
         res["sample"] = {"seed": seed, "scenario": {k: v for k, v in sc.items()},
                          "completion_order": list(d)[:40], "tape_draws": len(tape.record)}
     if viols:
